@@ -40,6 +40,11 @@ func nextSerial() *big.Int { serial++; return big.NewInt(serial) }
 
 // NewCA creates a self-signed CA certificate valid from a day ago for ten years.
 func NewCA(name string, id uint64) (*CA, error) {
+	return NewCAValid(name, id, time.Now().Add(-24*time.Hour), time.Now().Add(10*365*24*time.Hour))
+}
+
+// NewCAValid: a CA whose own certificate is valid from nb to na (an expired CA: a forgotten roll-over).
+func NewCAValid(name string, id uint64, nb, na time.Time) (*CA, error) {
 	key, err := ecdsa.GenerateKey(elliptic.P256(), rand.Reader)
 	if err != nil {
 		return nil, err
@@ -47,8 +52,8 @@ func NewCA(name string, id uint64) (*CA, error) {
 	tmpl := &x509.Certificate{
 		SerialNumber:          nextSerial(),
 		Subject:               pkix.Name{CommonName: name, Organization: []string{"verif harness"}},
-		NotBefore:             time.Now().Add(-24 * time.Hour),
-		NotAfter:              time.Now().Add(10 * 365 * 24 * time.Hour),
+		NotBefore:             nb,
+		NotAfter:              na,
 		KeyUsage:              x509.KeyUsageCertSign | x509.KeyUsageCRLSign | x509.KeyUsageDigitalSignature,
 		BasicConstraintsValid: true,
 		IsCA:                  true,
